@@ -209,3 +209,20 @@ Example other_order_loses_override :
   let fwd := job_context (run_context RunThenConfig (ctx_get config) (ctx_get [])) [[(0, 2%Z)]] in
   fwd 0 = Some 2%Z /\ sub_new_context RunThenConfig (ctx_get config) fwd 0 = Some 7%Z /\ sub_extend_context fwd 0 = Some 2%Z.
 Proof. repeat split. Qed.
+
+(* ---------------------------------------------------------------------- *)
+(** * Cache identity of the _subrun_root_task call                          *)
+(** two calls with the same key agree on the expression and on the mode: a subrun that extends the
+    execution is never answered with the recorded result of one that started a new execution *)
+Theorem root_key_separates_modes :
+  forall a b : rtarg -> Z,
+    root_key shipped_config_args a = root_key shipped_config_args b ->
+    a AExpr = b AExpr /\ a ANewExecution = b ANewExecution /\ a AExportOptions = b AExportOptions.
+Proof. intros a b H. cbv in H. inversion H. auto. Qed.
+
+Example key_with_mode_as_config_arg_confuses_modes :
+  let a := fun x => match x with ANewExecution => 1%Z | _ => 0%Z end in
+  let b := fun _ : rtarg => 0%Z in
+  root_key (ANewExecution :: shipped_config_args) a = root_key (ANewExecution :: shipped_config_args) b
+  /\ a ANewExecution <> b ANewExecution.
+Proof. split; [reflexivity|discriminate]. Qed.
